@@ -3,6 +3,7 @@ Executable Float twin of the probe / plane-wave model of Props/C05.lean: the sam
 Float formulas of Gen/ProbeF.lean and Gen/FftShiftF.lean (abtem/waves.py, abtem/transfer.py, abtem/core/fft.py).
 Core Lean only.
 -/
+import AbtemVerif.Gen.Probe
 import AbtemVerif.Gen.ProbeF
 import AbtemVerif.Gen.FftShiftF
 import AbtemVerif.Model.Propagator
@@ -40,9 +41,16 @@ structure Pixel where
   chi : Float
   zero : Bool
 
-/-- reciprocal-space array of `Probe._calculate_array` before the final ifft2 -/
+/-- reciprocal-space array of `Probe._calculate_array` before the final ifft2: the scan kernel, then the top-level calls of the
+function in their *generated* source order (`Gen.Probe.probeOps`; `Waves(...)`, `tilt.apply`, `ensure_real_space` leave the array alone) -/
 def probeSpectrumF (soft : Bool) (cutoff : Option Float) (s0 s1 x y w : Float) (px : List Pixel) : List CF :=
-  normalizeF (px.map fun p =>
-    ((scanKernelF p.kx p.ky x y).scale (probeApertureF soft p.zero cutoff p.alpha p.phi s0 s1)).mul (aberrationF w p.chi))
+  let kernel := px.map fun p => scanKernelF p.kx p.ky x y
+  AbtemVerif.Gen.Probe.probeOps.foldl (fun ys op =>
+    if op = "waves_builder.aperture.apply" then
+      List.zipWith (fun (c : CF) (p : Pixel) => c.scale (probeApertureF soft p.zero cutoff p.alpha p.phi s0 s1)) ys px
+    else if op = "waves_builder.aberrations.apply" then
+      List.zipWith (fun (c : CF) (p : Pixel) => c.mul (aberrationF w p.chi)) ys px
+    else if op = "waves.normalize" then normalizeF ys
+    else ys) kernel
 
 end AbtemVerif.ProbeModel
